@@ -15,8 +15,10 @@ From Fabio Require Import Lib.Bytes Model.Gzip Proofs.Gzip.
 Import ListNotations.
 Local Open Scope N_scope.
 
-(* The (final) status code is preserved in all cases. *)
-Theorem C17_status_preserved : forall sniff ctm h0 accept ae ops,
+(* The (final) status code is preserved in all cases.  [valid_codes ops]: every WriteHeader code is in
+   100..999 and is not 101 -- the modelled domain (net/http panics outside 100..999; 101 is a final
+   code for the server although the handler passes it on like a 1xx). *)
+Theorem C17_status_preserved : forall sniff ctm h0 accept ae ops, valid_codes ops = true ->
   o_code (handler sniff ctm h0 accept ae ops) = o_code (bare sniff h0 ops).
 Proof. exact status_preserved. Qed.
 Print Assumptions C17_status_preserved.
@@ -28,8 +30,8 @@ Theorem C17_informational_preserved : forall sniff ctm h0 accept ae ops,
 Proof. exact informational_preserved. Qed.
 Print Assumptions C17_informational_preserved.
 
-(* The wrapper never uses its writer before deciding (no nil-writer panic). *)
-Theorem C17_never_panics : forall sniff ctm h0 accept ae ops,
+(* The wrapper never uses its writer before deciding (no nil-writer panic), on the same domain. *)
+Theorem C17_never_panics : forall sniff ctm h0 accept ae ops, valid_codes ops = true ->
   o_panic (handler sniff ctm h0 accept ae ops) = false.
 Proof. exact never_panics. Qed.
 Print Assumptions C17_never_panics.
@@ -46,9 +48,29 @@ Theorem C17_compressed_only_if : forall sniff ctm h0 accept ae ops f,
 Proof. exact compressed_only_if. Qed.
 Print Assumptions C17_compressed_only_if.
 
-(* "The content type matches": the expression is applied to the COMPLETE first value of the
-   Content-Type header ([hget] = http.Header.Get; parameters, spacing and case as the upstream wrote
-   them), at the first non-informational WriteHeader / first Write, and to nothing else. *)
+(* "Not already encoded", in full: EVERY Content-Encoding value of the upstream's response is empty --
+   outside region 3 (first value empty, a later one not: the code reads Get = the first value). *)
+Theorem C17_compressed_only_if_not_encoded_on_domain : forall sniff ctm h0 accept ae ops f,
+  o_fed (handler sniff ctm h0 accept ae ops) = Some f ->
+  ce_hidden (ce_values (o_hdr (bare sniff h0 ops))) = false ->
+  not_encoded (o_hdr (bare sniff h0 ops)) = true.
+Proof. exact compressed_only_if_not_encoded_on_domain. Qed.
+Print Assumptions C17_compressed_only_if_not_encoded_on_domain.
+
+(* Region 3 refuted (open finding F-C17-4): upstream Content-Encoding: ["", "br"] is compressed again
+   and leaves with Content-Encoding: gzip only -- the br label is lost. *)
+Theorem C17_ce_first_empty_refuted : forall sniff,
+  let ops := [AddHeader H_CE []; AddHeader H_CE (bs "br"); SetHeader H_CT (bs "text/html"); Write (bs "BROTLI")] in
+  let res := handler sniff (fun _ => true) [] [] [bs "gzip"] ops in
+  ce_hidden (ce_values (o_hdr (bare sniff [] ops))) = true
+  /\ not_encoded (o_hdr (bare sniff [] ops)) = false
+  /\ o_fed res = Some (bs "BROTLI") /\ hvals (o_hdr res) H_CE = Some [GZIP].
+Proof. exact ce_first_empty_refuted. Qed.
+Print Assumptions C17_ce_first_empty_refuted.
+
+(* MECHANISM LEMMAS (they unfold the model; their content is the correspondence run, which compares the
+   real code with these definitions): the expression is applied to the COMPLETE first value of the
+   Content-Type header, at the first non-informational WriteHeader / first Write. *)
 Theorem C17_decision_uses_full_content_type : forall sniff ctm c g, is_1xx c = false -> g_sel g = None ->
   g_sel (grw_step sniff ctm (WriteHeader c) g)
   = Some (beq (hget (r_hdr (g_rec g)) H_CE) [] && ctm (hget (r_hdr (g_rec g)) H_CT)).
@@ -59,6 +81,7 @@ Theorem C17_hget_is_first_complete_value : forall h k v vs, hvals h k = Some (v 
 Proof. exact hget_first. Qed.
 Print Assumptions C17_hget_is_first_complete_value.
 
+(* ... with content: an expression that excludes parameters does not match a type that carries one *)
 Theorem C17_parameters_are_matched : forall sniff,
   let run ct := o_fed (handler sniff (beq (bs "text/plain")) [] [] [bs "gzip"] [SetHeader H_CT (bs ct); Write (bs "hello")]) in
   run "text/plain; charset=utf-8"%string = None /\ run "text/plain ; q"%string = None /\ run "TEXT/PLAIN"%string = None
@@ -66,13 +89,24 @@ Theorem C17_parameters_are_matched : forall sniff,
 Proof. exact parameters_are_matched. Qed.
 Print Assumptions C17_parameters_are_matched.
 
-(* A compressed response goes only to a client that accepts gzip in the RFC 9110 12.5.3 reading
-   (some gzip / x-gzip entry with a non-zero weight, else "*"): for EVERY request -- no
-   known-finding region is left. *)
+(* A compressed response goes only to a client that accepts gzip in the RFC 9110 12.5.3 / 12.4.2 reading
+   (some gzip / x-gzip entry none of whose parameters is a zero weight, else "*") -- outside region 1:
+   a gzip entry with two or more parameters one of which is a zero weight. *)
 Theorem C17_compressed_only_if_rfc_on_domain : forall sniff ctm h0 accept ae ops f,
-  o_fed (handler sniff ctm h0 accept ae ops) = Some f -> rfc_accepts_gzip ae = true.
+  o_fed (handler sniff ctm h0 accept ae ops) = Some f ->
+  q0_ext_region ae = false -> rfc_accepts_gzip ae = true.
 Proof. exact compressed_only_if_rfc_on_domain. Qed.
 Print Assumptions C17_compressed_only_if_rfc_on_domain.
+
+(* Region 1 refuted (open finding F-C17-5): "gzip;q=0;x=1" and "gzip;x=1;Q=0.0" refuse gzip and are compressed. *)
+Theorem C17_accept_q0_ext_refuted : forall sniff,
+  let ops := [SetHeader H_CT (bs "text/html"); Write (bs "hello")] in
+  rfc_accepts_gzip [bs "gzip;q=0;x=1"] = false /\ q0_ext_region [bs "gzip;q=0;x=1"] = true
+  /\ o_fed (handler sniff (fun _ => true) [] [] [bs "gzip;q=0;x=1"] ops) = Some (bs "hello")
+  /\ rfc_accepts_gzip [bs "deflate, gzip;x=1;Q=0.0"] = false /\ q0_ext_region [bs "deflate, gzip;x=1;Q=0.0"] = true
+  /\ o_fed (handler sniff (fun _ => true) [] [] [bs "deflate, gzip;x=1;Q=0.0"] ops) = Some (bs "hello").
+Proof. exact accept_q0_ext_refuted. Qed.
+Print Assumptions C17_accept_q0_ext_refuted.
 
 (* Before commit 7cff601 the test was a substring test: "gzip;q=0" refuses gzip and was compressed
    (fixed finding F-C17-1 as first recorded). *)
@@ -100,7 +134,7 @@ Theorem C17_accept_q0_repaired :
     ["gzip;q=0"; "gzip; q=0.0"; "gzip ; q=0"; "identity;q=1, gzip;q=0"; "deflate, gzip;q=0.000"; "gzip;q=0."; "x-gzip;q=0";
      "gzip;Q=0"; "gzip; Q=0.0"; "deflate, gzip;Q=0"; "Gzip;q=0"; "notgzip2"; "deflate"; ""]%string = true
   /\ forallb (fun v => accepts_gzip [] [bs v])
-    ["gzip"; "GZIP"; "X-GZIP"; " gzip "; "deflate, gzip;q=0.5"; "gzip;q=0, x-gzip"; "gzip;q=0;x=1"]%string = true.
+    ["gzip"; "GZIP"; "X-GZIP"; " gzip "; "deflate, gzip;q=0.5"; "gzip;q=0, x-gzip"]%string = true.
 Proof. exact q0_repaired. Qed.
 Print Assumptions C17_accept_q0_repaired.
 
@@ -122,27 +156,66 @@ Theorem C17_gunzip_body_eq_writes : forall sniff ctm h0 accept ae ops gz gunzip 
 Proof. exact gunzip_body_eq_writes. Qed.
 Print Assumptions C17_gunzip_body_eq_writes.
 
-(* Its other headers are the upstream's: equal on every key except Content-Type / -Encoding /
-   -Length and Vary; Vary gained at most one Accept-Encoding; Content-Type is the upstream's or,
-   when it set none, a sniffed one. *)
+(* Its other headers are the upstream's: equal on every key except Content-Type / -Encoding / -Length and
+   Vary; Vary gained at most one Accept-Encoding; Content-Type ([ct_res]) is the upstream's as net/http
+   delivers it, or one the handler sniffed from the first chunk, or absent where net/http alone would
+   have sniffed one (the server does not sniff an encoded body). *)
 Theorem C17_compressed_headers : forall sniff ctm h0 accept ae ops f,
   o_fed (handler sniff ctm h0 accept ae ops) = Some f ->
   hdr_rel [H_CT; H_CE; H_CL] (o_hdr (handler sniff ctm h0 accept ae ops)) (o_hdr (bare sniff h0 ops))
-  /\ ct_rel sniff (o_hdr (handler sniff ctm h0 accept ae ops)) (o_hdr (bare sniff h0 ops)).
+  /\ ct_res sniff true true (o_hdr (handler sniff ctm h0 accept ae ops)) (o_hdr (bare sniff h0 ops)).
 Proof. exact compressed_headers. Qed.
 Print Assumptions C17_compressed_headers.
 
-(* In every other case the body is delivered byte for byte and the headers are the upstream's
-   (Content-Encoding and Content-Length included) apart from Vary and a sniffed Content-Type. *)
+(* In every other case the body is delivered byte for byte and EVERY header is the upstream's as net/http
+   delivers it (its own Content-Type sniffing included), Vary apart -- outside region 2 (accepted request,
+   the first non-informational call is a Write, no Content-Type key at that moment). *)
+Theorem C17_identity_headers_exact : forall sniff ctm h0 accept ae ops gz,
+  o_fed (handler sniff ctm h0 accept ae ops) = None ->
+  sniff_region h0 accept ae ops = false ->
+  body_of gz (handler sniff ctm h0 accept ae ops) = written ops
+  /\ hdr_rel [] (o_hdr (handler sniff ctm h0 accept ae ops)) (o_hdr (bare sniff h0 ops)).
+Proof. exact identity_headers_exact. Qed.
+Print Assumptions C17_identity_headers_exact.
+
+(* Region 2 refuted (open finding F-C17-3): upstream "Content-Encoding: br" without Content-Type, accepted
+   request, not compressed: the response carries a Content-Type the upstream never sent and net/http alone
+   would not add; and an unencoded body whose first chunk is "<": text/plain instead of net/http's text/html. *)
+Theorem C17_sniffed_type_refuted : forall ctm,
+  let sniff := fun b : str => if beq b (bs "<") then bs "text/plain" else bs "text/html" in
+  let ops1 := [SetHeader H_CE (bs "br"); Write (bs "BROTLI")] in
+  let ops2 := [Write (bs "<"); Write (bs "html>")] in
+  sniff_region [] [] [bs "gzip"] ops1 = true
+  /\ o_fed (handler sniff (fun _ => false) [] [] [bs "gzip"] ops1) = None
+  /\ hvals (o_hdr (handler sniff ctm [] [] [bs "gzip"] ops1)) H_CT = Some [bs "text/html"]
+  /\ hvals (o_hdr (bare sniff [] ops1)) H_CT = None
+  /\ o_fed (handler sniff (fun _ => false) [] [] [bs "gzip"] ops2) = None
+  /\ hvals (o_hdr (handler sniff (fun _ => false) [] [] [bs "gzip"] ops2)) H_CT = Some [bs "text/plain"]
+  /\ hvals (o_hdr (bare sniff [] ops2)) H_CT = Some [bs "text/html"].
+Proof. exact sniffed_type_refuted. Qed.
+Print Assumptions C17_sniffed_type_refuted.
+
+(* For EVERY call sequence (region 2 included): body exact; headers the upstream's apart from Vary and a
+   Content-Type that is the upstream's or one the handler sniffed. *)
 Theorem C17_identity_otherwise : forall sniff ctm h0 accept ae ops gz,
   o_fed (handler sniff ctm h0 accept ae ops) = None ->
   body_of gz (handler sniff ctm h0 accept ae ops) = written ops
   /\ hdr_rel [H_CT] (o_hdr (handler sniff ctm h0 accept ae ops)) (o_hdr (bare sniff h0 ops))
-  /\ ct_rel sniff (o_hdr (handler sniff ctm h0 accept ae ops)) (o_hdr (bare sniff h0 ops)).
+  /\ ct_res sniff true false (o_hdr (handler sniff ctm h0 accept ae ops)) (o_hdr (bare sniff h0 ops)).
 Proof. exact identity_otherwise. Qed.
 Print Assumptions C17_identity_otherwise.
 
-(* The writer is decided once: after the decision no call changes the selection, the status
+(* MECHANISM LEMMA (definitional in the model; tied to the code by the abort classes of the harness, and
+   end to end: the client sees a transport error): when the inner handler panics (http.ErrAbortHandler)
+   the deferred Close still runs -- the response so far is the one of a normal return -- and the panic
+   is not swallowed. *)
+Theorem C17_abort_not_swallowed : forall sniff ctm h0 accept ae ops abort,
+  s_propagated (serve sniff ctm h0 accept ae ops abort) = abort
+  /\ s_res (serve sniff ctm h0 accept ae ops abort) = handler sniff ctm h0 accept ae ops.
+Proof. exact abort_not_swallowed. Qed.
+Print Assumptions C17_abort_not_swallowed.
+
+(* MECHANISM LEMMAS about the model's state machine.  The writer is decided once: after the decision no call changes the selection, the status
    or the header snapshot.  The first NON-informational WriteHeader or the first Write decides;
    an informational WriteHeader decides nothing, finalises nothing and leaves the headers alone. *)
 Theorem C17_decision_once : forall sniff ctm ops g s,
@@ -210,7 +283,7 @@ Theorem C17_pool_independence_thread : forall sniff ctm reset,
   nth_error ts i = Some (mkH ops g None) ->
   nth_error (snd (sys_run sniff ctm reset sched (pool, ts))) i = Some t ->
   h_done t = Some r ->
-  r = grw_result (grw_run sniff ctm ops g).
+  r = grw_result sniff (grw_run sniff ctm ops g).
 Proof. exact pool_independence_thread. Qed.
 Print Assumptions C17_pool_independence_thread.
 
